@@ -16,6 +16,7 @@ import OFV.Proofs.C10Two
 import OFV.Proofs.C10Spin
 import OFV.Proofs.C10Lookup
 import OFV.Proofs.C10Entries
+import OFV.Proofs.C10Filter
 
 namespace OFV.C10
 open OFV.Model OFV.Model.C10 OFV.Spec OFV.Spec.C10
@@ -238,6 +239,14 @@ theorem build_term_op_entries_spec (t : Term) (states : List Det) (n : Nat) (hnd
   have := applyTermDet_sound t (states.getD e.2.1 []) m hag (by rw [hlen _ hd]; exact hlt) k' m' hact
   rw [hk, htar]
   exact this
+
+/-- **the pre-filter is exact on normal-ordered terms**: for a term `a†_{cr…} a_{an…}` with distinct creation modes
+and distinct annihilation modes (what `normal_ordered` produces), a basis determinant passes the occupied /
+unoccupied test of `_build_term_op_` exactly when the Spec action of the term on its basis state does not vanish:
+the filter drops no contribution and keeps no vanishing one. -/
+theorem prefilter_exact (cr an : List Nat) (hc : cr.Nodup) (ha : an.Nodup) (d : Det) (m : Nat) (hag : Agree d m) :
+    passes (noTerm cr an) d = true ↔ (actFTerm (noTerm cr an) m).isSome = true :=
+  passes_iff_action cr an hc ha d m hag
 
 /-- The big-endian integer encoding `determinant.dot(1 << arange(n)[::-1])` is injective on
 determinants of one length, so distinct basis determinants have distinct encodings. -/
